@@ -51,6 +51,8 @@ def digest(v, depth=0):
         if isinstance(v, (float, np.floating)):
             return repr(float(v))
         if isinstance(v, str):
+            if type(v).__name__ in ('XlError', 'XlCircular'):
+                return 'e:' + str.__str__(v)
             return 's:' + v
         return 'o:%s:%s' % (type(v).__name__, v)
     except Exception as ex:  # Never let a hook break the library.
